@@ -269,9 +269,13 @@ func scenarioBinary(t *traceWriter, rng *rand.Rand) {
 	// what the operator's dashboard must show for this process: per log, the requests that reached Update (the body parses,
 	// fits the connection's body cap and names a configured origin) and those answered 200
 	attempts, successes := map[string]int{}, map[string]int{}
+	unanswered := 0 // requests whose answer never arrived: whether they reached Update is unknown, the page is then not judged
 	counted := func(do func([]byte) (int, string, []byte, bool)) func([]byte) (int, string, []byte, bool) {
 		return func(body []byte) (int, string, []byte, bool) {
 			st, ct, rb, ok := do(body)
+			if !ok {
+				unanswered++
+			}
 			if ok && st != 429 && len(body) <= 16*1024 {
 				if _, _, cp, err := bastion.VerifParseBody(bytes.NewReader(body)); err == nil {
 					if i := bytes.IndexByte(cp, '\n'); i >= 0 {
@@ -312,11 +316,11 @@ func scenarioBinary(t *traceWriter, rng *rand.Rand) {
 			return 0
 		}
 		for _, l := range defs {
-			t.line("BINM log=%s attempts=%d successes=%d => page_attempts=%d page_successes=%d", hx([]byte(l.id)), attempts[l.id], successes[l.id],
+			t.line("BINM log=%s attempts=%d successes=%d unanswered=%d => page_attempts=%d page_successes=%d", hx([]byte(l.id)), attempts[l.id], successes[l.id], unanswered,
 				scrape("omniwitness_witness_update_request", l.id), scrape("omniwitness_witness_update_success", l.id))
 		}
 	} else {
-		t.line("BINM log=- attempts=0 successes=0 => page_attempts=-1 page_successes=-1")
+		t.line("BINM log=- attempts=0 successes=0 unanswered=0 => page_attempts=-1 page_successes=-1")
 	}
 	held := map[string][]byte{}
 	for _, l := range defs {
